@@ -25,7 +25,12 @@ pub struct LCase {
 }
 
 fn shapes() -> Vec<Vec<&'static str>> {
-    vec![vec!["host"], vec!["region"], vec!["host", "region"], vec![]]
+    vec![vec!["host"], vec!["region"], vec!["host", "region"], vec![], vec!["host"], vec!["region"]]
+}
+
+/// shapes 4 and 5 declare their label NOT NULL (and every row carries it), as clients that always send the label do
+fn not_null(shape: usize) -> bool {
+    shape >= 4
 }
 
 const SEC: i64 = 1_000_000_000;
@@ -43,8 +48,8 @@ fn chunk_rows(i: usize, shape: usize) -> Vec<(i64, i64, BTreeMap<&'static str, S
             let ts = base_ts() + (i as i64) * 600 * SEC + k as i64 * SEC;
             let mut m = BTreeMap::new();
             for (j, l) in labels.iter().enumerate() {
-                // the second row of a chunk has no value for the chunk's last label
-                if !(k == 1 && j + 1 == labels.len()) {
+                // the second row of a chunk has no value for the chunk's last label (unless the label is declared NOT NULL)
+                if !(k == 1 && j + 1 == labels.len()) || not_null(shape) {
                     m.insert(*l, format!("{l}-{id}"));
                 }
             }
@@ -62,6 +67,10 @@ fn ts_field(ts_type: bool) -> Field {
 }
 
 fn batch_of(rows: &[(i64, i64, BTreeMap<&'static str, String>)], labels: &[&'static str], ts_type: bool) -> RecordBatch {
+    batch_of_nn(rows, labels, ts_type, false)
+}
+
+fn batch_of_nn(rows: &[(i64, i64, BTreeMap<&'static str, String>)], labels: &[&'static str], ts_type: bool, labels_not_null: bool) -> RecordBatch {
     let mut fields = vec![ts_field(ts_type), Field::new("metric_name", DataType::Utf8, false), Field::new("value_f64", DataType::Float64, true), Field::new("id", DataType::Int64, false)];
     let ts: Vec<i64> = rows.iter().map(|r| r.1).collect();
     let mut cols: Vec<Arc<dyn Array>> = vec![
@@ -71,7 +80,7 @@ fn batch_of(rows: &[(i64, i64, BTreeMap<&'static str, String>)], labels: &[&'sta
         Arc::new(Int64Array::from(rows.iter().map(|r| r.0).collect::<Vec<_>>())),
     ];
     for l in labels {
-        fields.push(Field::new(*l, DataType::Utf8, true));
+        fields.push(Field::new(*l, DataType::Utf8, !labels_not_null));
         cols.push(Arc::new(StringArray::from(rows.iter().map(|r| r.2.get(l).cloned()).collect::<Vec<Option<String>>>())));
     }
     RecordBatch::try_new(Arc::new(Schema::new(fields)), cols).expect("label batch")
@@ -191,7 +200,7 @@ async fn run_lcase(c: &LCase, only_sql: Option<&str>) -> Result<LOut, String> {
                 union.push(*l);
             }
         }
-        let bytes = encode_parquet(&batch_of(&rows, &labels, c.ts_type));
+        let bytes = encode_parquet(&batch_of_nn(&rows, &labels, c.ts_type, not_null(*s)));
         let p = format!("data/t/chunk_{i:03}.parquet");
         let m = ChunkMetadata { path: p.clone(), min_timestamp: rows[0].1, max_timestamp: rows[1].1, row_count: 2, size_bytes: bytes.len() as u64 };
         store.put(&object_store::path::Path::from(p.as_str()), bytes.into()).await.map_err(|e| e.to_string())?;
@@ -293,8 +302,8 @@ pub fn cases(tier: &str) -> Vec<LCase> {
             for a in 0..n {
                 for b in 0..n {
                     v.push(LCase { os, ts_type, chunks: vec![a, b] });
-                    if tier == "thorough" || (!os && ts_type) {
-                        for c in 0..n {
+                    if tier == "thorough" || (!os && ts_type && a < 3 && b < 3) {
+                        for c in 0..if tier == "thorough" { n } else { 3 } {
                             v.push(LCase { os, ts_type, chunks: vec![a, b, c] });
                         }
                     }
@@ -355,7 +364,7 @@ pub fn label_space(rep: &mut Report, tier: &str) {
     rep.set(
         "label_sets",
         json!({"cases": cs.len(), "evaluations": evals, "naming_a_label_of_unselected_chunks_only": outside, "rows_agreed": agree_rows, "both_reject": both_reject,
-        "rule": "every sequence of 2 (3: in-memory + Timestamp column in quick, everywhere in thorough) chunk shapes out of 4 (label columns [host] / [region] / [host,region] / none) x both catalog back ends x both timestamp column types; windows selecting all / the first / the last chunk; plain, *, count(*), and per label: projection, IS [NOT] NULL, =, <>, GROUP BY, count(label); each statement through QueryNode::query and through the historical phase of a streaming subscription, each on a node that served the previous statements and on a fresh node; reference = DataFusion over one MemTable of all rows under the union of the columns"}),
+        "rule": "every sequence of 2 (3: in-memory + Timestamp column in quick, everywhere in thorough) chunk shapes out of 6 (label columns [host] / [region] / [host,region] / none, nullable; [host] / [region] declared NOT NULL; quick: triples over the first 3) x both catalog back ends x both timestamp column types; windows selecting all / the first / the last chunk; plain, *, count(*), and per label: projection, IS [NOT] NULL, =, <>, GROUP BY, count(label); each statement through QueryNode::query and through the historical phase of a streaming subscription, each on a node that served the previous statements and on a fresh node; reference = DataFusion over one MemTable of all rows under the union of the columns"}),
     );
     rep.push_sample(json!({"label_set_case": cs.get(cs.len() / 3), "queries": queries(&cs[cs.len() / 3]).iter().take(4).map(|q| q.sql.clone()).collect::<Vec<_>>()}));
     if agree_rows == 0 {
